@@ -6,7 +6,12 @@
 //	<out>/cases_<k>.v  the same cases with the operations Reconcile returned, the RIB's answer to each
 //	                   and the final contents, as Gallina terms for Tools/Reconciler.v
 //	<out>/impl.json    verdicts of the model-free oracle (every operation programmed, contents equal
-//	                   in every instance of the target, ids base+1..base+k, equal RIBs -> no operations)
+//	                   in every instance of the target, ids base+1..base+k, equal RIBs -> no operations,
+//	                   a second Reconcile afterwards -> no operations)
+//
+// A quarter of the cases (every profile) run in remote mode (remote.go): the target, the intended side or
+// both are read by the reconciler through reconciler.RemoteRIB from a real gRIBI server in this process
+// that serves the side's rib.RIB; outputs, oracle and correspondence are the same as in local mode.
 package main
 
 import "verifharness/drv"
